@@ -23,6 +23,15 @@ def gen_cases(run):
             # pixels that are not square, with another height / width in each image: the resolution ratio differs between rows and columns
             # (the reference pixels are the taller ones, so that the reference still covers the source)
             g.ref_yscale, g.src_yscale = [(2.0, 1.0), (1.5, 1.0), (1.0, 0.5), (4.0, 2.0), (3.0, 1.0)][(i // 9) % 5]
+        if i % 13 == 6:
+            # a source whose edge pokes a hair (a few 1e-4 of a reference pixel) past a reference grid line - up / left, or down / right: the
+            # paired windows still cover it (nothing within any "tolerance" of a grid line may be snapped onto it)
+            ratio = rng.choice([2, 4, 3])
+            hair = rng.choice([5e-4, 2e-4, 9e-4])
+            n0, n1 = rng.randint(1, 4), rng.randint(1, 4)
+            sh_ = (rng.randint(4, 12) * ratio, rng.randint(4, 12) * ratio)
+            off_ = (n0 - hair, n1 - hair) if (i // 13) % 2 == 0 else (n0 + hair, n1 + hair)
+            g = synth.Geom(rng.choice([1.0, 0.5, 30.0]), ratio, *rng.choice([(16.0, 48.0), (300000.0, 6200000.0)]), (n0 + sh_[0] // ratio + 3, n1 + sh_[1] // ratio + 3), off_, sh_)
         proc = rng.choice(['auto', 'auto', 'ref', 'src'])
         ov = rng.choice([(0, 0), (1, 1), (1, 1), (2, 3), (3, 1), (4, 5)])
         yield g, proc, ov, dict(target=rng.choice([1, 2, 4, 8, 16, 32, 60]), jitter=rng.uniform(0.8, 1.3))
